@@ -76,25 +76,40 @@ func smallbuf(repo, out string, n int, res *result) error {
 			return err
 		}
 		done := false
+		typeName := ""
 		ast.Inspect(f, func(nd ast.Node) bool {
 			ts, ok := nd.(*ast.TypeSpec)
-			if !ok || ts.Name.Name != "reader" {
+			if !ok || done {
 				return true
 			}
 			st, ok := ts.Type.(*ast.StructType)
 			if !ok {
 				return true
 			}
+			// the line reader: a struct with an io.Reader field and a fixed-size byte array
+			hasReader := false
 			for _, fld := range st.Fields.List {
-				for _, nm := range fld.Names {
-					if nm.Name != "buf" {
-						continue
-					}
-					if at, ok := fld.Type.(*ast.ArrayType); ok && at.Len != nil {
-						at.Len = &ast.BasicLit{Kind: token.INT, Value: strconv.Itoa(n)}
-						done = true
+				if se, ok := fld.Type.(*ast.SelectorExpr); ok && se.Sel.Name == "Reader" {
+					if id, ok := se.X.(*ast.Ident); ok && id.Name == "io" {
+						hasReader = true
 					}
 				}
+			}
+			if !hasReader {
+				return true
+			}
+			for _, fld := range st.Fields.List {
+				at, ok := fld.Type.(*ast.ArrayType)
+				if !ok || at.Len == nil {
+					continue
+				}
+				if id, ok := at.Elt.(*ast.Ident); !ok || id.Name != "byte" {
+					continue
+				}
+				at.Len = &ast.BasicLit{Kind: token.INT, Value: strconv.Itoa(n)}
+				done = true
+				typeName = ts.Name.Name
+				break
 			}
 			return false
 		})
@@ -108,11 +123,11 @@ func smallbuf(repo, out string, n int, res *result) error {
 				return err
 			}
 			res.Replace[p] = np
-			res.Notes = append(res.Notes, fmt.Sprintf("smallbuf: %s reader.buf array length rewritten to %d", name, n))
+			res.Notes = append(res.Notes, fmt.Sprintf("smallbuf: %s: byte array of struct %s (the one holding an io.Reader) rewritten to length %d", name, typeName, n))
 			return nil
 		}
 	}
-	return fmt.Errorf("smallbuf: no `type reader struct { buf [N]byte }` found in %s", dir)
+	return fmt.Errorf("smallbuf: no struct with an io.Reader field and a fixed-size byte array found in %s", dir)
 }
 
 const mcImport = "github.com/maruel/panicparse/v2/internal/verifx/mc"
